@@ -122,6 +122,10 @@ var sources = []string{
 	"T | join kind=aaa (U | join kind=bbb (V) on k) on k | join kind=ccc (W) on k",
 	"let a = u1; let b = u2; let c = u3; T | where u4 == u5",
 	"T | take 1.5 | take 2.5 | top 3.5 by a | limit 'x'",
+	// let values that mention parameters (their meaning depends on the options of the call)
+	"let v = strcat(p, '-x'); T | where s == v",
+	"let lim = a + 1; let m = lim * 2; T | take lim | where x == m and s == k",
+	"let v = strcat(p, '-x'); let w = v; T | extend w | where k == a",
 	// one mistake through every spelling that shares its code with another (the
 	// message names the spelling that was written, whichever came first in the process)
 	"T | where iff(a > 1, 2)",
@@ -283,10 +287,12 @@ func optionSet() []*pql.CompileOptions {
 	}
 	// keys that differ only in letter case or in surrounding white space are different keys
 	odd := &pql.CompileOptions{Parameters: map[string]string{"p": "$1", "p ": "$2", " p": "$3", "P": "$4", "a": "{a:Int64}", "A": "{A:Int64}", "a\t": "{t:Int64}", "k": "?", "": "$9"}}
-	return []*pql.CompileOptions{nil, {}, {Parameters: map[string]string{}}, shared, wide, odd}
+	// the same names bound to other values (what a call returns depends on its own options only)
+	other := &pql.CompileOptions{Parameters: map[string]string{"p": "$7", "a": "{z:Int64}", "k": "'kk'"}}
+	return []*pql.CompileOptions{nil, {}, {Parameters: map[string]string{}}, shared, wide, odd, other}
 }
 
-var optNames = []string{"nil", "zero", "empty-map", "shared{p,a,k}", "shared{p,a,k,w0..w13}", "shared{p,'p ',' p',P,a,A,k,''}"}
+var optNames = []string{"nil", "zero", "empty-map", "shared{p,a,k}", "shared{p,a,k,w0..w13}", "shared{p,'p ',' p',P,a,A,k,''}", "other{p,a,k}"}
 
 // snapshotParams copies every parameter map of an option set.
 func snapshotParams(opts []*pql.CompileOptions) []map[string]string {
